@@ -102,6 +102,12 @@ OTHER_HEADERS = ['X-Request-ID', 'X-Request-Id', 'X-Correlation-ID', 'User-Agent
 QUERY_KEYS = ['callback', 'jsonp', 'cb', 'format', 'debug', 'lang', 'redirect', 'next', '_', 'q']
 
 
+# spellings of "JSON first" that a client may send: weights, parameters, further types behind it
+JSON_ACCEPTS = ['application/json;q=0.9', 'application/json; q=0.5, */*;q=0.1', 'application/json; charset=utf-8', 'application/json;q=1', 'application/json;q=1.0, text/html;q=0.9',
+                'application/json, text/plain, */*', 'application/json;q=0.01']
+# environment variables of the process whose NAMES suggest a debug switch, set to values that mean "off"
+ENVS = [None, None, None, {'OMBOTT_DEBUG': 'False'}, {'OMBOTT_DEBUG': 'OFF', 'DEBUG': 'No'}, {'DEBUG': '0', 'OMBOTT_DEBUG': '0'}, {'OMBOTT_DEBUG': ' false '}, {'BOTTLE_DEBUG': 'False', 'PYTHONDEBUG': ''},
+        {'OMBOTT_DEBUG': 'no', 'OMBOTT_ENV': 'production'}, {'OMBOTT_DEBUG': 'Off'}]
 CLIENTS = [None, None, None, {'User-Agent': 'Mozilla/4.0 (compatible; MSIE 8.0; Windows NT 6.1)'}, {'User-Agent': 'curl/8.4.0'}, {'User-Agent': 'Mozilla/5.0 (X11; Linux x86_64) Gecko/20100101 Firefox/128.0'},
            {'User-Agent': 'Googlebot/2.1 (+http://www.google.com/bot.html)', 'From': 'googlebot(at)googlebot.com'}, {'X-Requested-With': 'XMLHttpRequest', 'User-Agent': 'Mozilla/5.0 (compatible; MSIE 10.0; Trident/6.0)'},
            {'Accept-Language': 'de-DE,de;q=0.9', 'Accept-Encoding': 'gzip, br', 'DNT': '1'}, {'Connection': 'keep-alive', 'Cache-Control': 'no-cache', 'Pragma': 'no-cache'},
@@ -179,6 +185,24 @@ def benign_skeleton(kind, accept):
 
 
 def check_case(ctx, case):
+    env_vars = ENVS[case['env'] % len(ENVS)] if case.get('env') else None
+    if not env_vars:
+        return _check_case(ctx, case)
+    import os
+    old = {k: os.environ.get(k) for k in env_vars}
+    os.environ.update(env_vars)
+    try:
+        ctx.count('process_environment_with_debug_like_variables_set_to_off')
+        return _check_case(ctx, case)
+    finally:
+        for k, v in old.items():
+            if v is None:
+                os.environ.pop(k, None)
+            else:
+                os.environ[k] = v
+
+
+def _check_case(ctx, case):
     kind, payload, where, accept = case['kind'], case['payload'], tuple(case['where']), case['accept']
     app = build_app(kind, payload)
     # earlier clients of the same application: the same error asked for with another Accept, with a benign payload, or twice
@@ -207,10 +231,10 @@ def check_case(ctx, case):
         raise CheckFailure(f'{kind}: expected status {want_code}, got {r.status!r} (payload {payload!r})')
     ct = (r.header('Content-Type') or '')
     body = r.body.decode('utf8', 'replace')
-    if kind == '404-root' and r.code == 500 and accept != 'application/json':          # (a JSON client still has to get JSON: that rendering does not depend on the URL)
+    if kind == '404-root' and r.code == 500 and accept not in (['application/json'] + JSON_ACCEPTS):          # (a JSON client still has to get JSON: that rendering does not depend on the URL)
         kind = 'critical-handler'           # the last-resort page answered: judged as that page
         ctx.count('url_shaped_path_answered_by_the_last_resort_page')
-    is_json_kind = accept == 'application/json' and not kind.startswith('critical')
+    is_json_kind = accept in (['application/json'] + JSON_ACCEPTS) and not kind.startswith('critical')
     if is_json_kind:
         if not ct.startswith('application/json'):
             raise CheckFailure(f'{kind}: JSON requested, Content-Type is {ct!r}; body {body[:200]!r}')
@@ -253,8 +277,9 @@ CASE = st.fixed_dictionaries({
     'where': st.lists(st.one_of(st.sampled_from(['path', 'query', 'host', 'xfh']), st.sampled_from(['path', 'query', 'host', 'xfh']),
                                st.sampled_from(OTHER_HEADERS).map(lambda h: 'hdr:' + h), st.sampled_from(QUERY_KEYS).map(lambda k: 'qkey:' + k)),
                       min_size=1, max_size=4, unique=True).map(sorted),
-    'accept': st.sampled_from([None, None, 'text/html', 'application/json', '*/*']),
+    'accept': st.sampled_from([None, None, 'text/html', 'application/json', '*/*'] + JSON_ACCEPTS),
     'client': st.integers(0, 11),
+    'env': st.integers(0, 9),
     'debug_before': st.sampled_from([0, 0, 0, 1, 2]),
     'before': st.one_of(st.just([]), st.just([]), st.lists(st.tuples(st.sampled_from(['same', 'same', 'benign', '<zqx>']),
                                                                       st.sampled_from([None, 'text/html', 'application/json', '*/*'])).map(list), min_size=1, max_size=3)),
@@ -289,6 +314,13 @@ def run(ctx):
                     for p in ('<zqx>', '"zqx"{0}'):
                         ctx.guarded(check_case, {'kind': kind, 'payload': p, 'where': ['path', 'query'], 'accept': accept, 'debug_before': dbg})
         ctx.count('client_and_debug_history_grid')
+        for kind in KINDS:
+            for acc in JSON_ACCEPTS:
+                ctx.guarded(check_case, {'kind': kind, 'payload': '<zqx>"zqx"', 'where': ['path', 'query'], 'accept': acc})
+            for env in range(3, len(ENVS)):
+                for accept in (None, 'application/json'):
+                    ctx.guarded(check_case, {'kind': kind, 'payload': '<zqx>{0}', 'where': ['path', 'query'], 'accept': accept, 'env': env})
+        ctx.count('accept_spelling_and_environment_grid')
         for kind in ('404', '405', '500', '400-chunked'):
             for p in ['<zqx>', 'abc<zqx/src=//x.example/y.js', '"zqx"', '0<zqx', '</script><zqx>']:
                 for carrier in ['hdr:' + h for h in OTHER_HEADERS] + ['qkey:' + k for k in QUERY_KEYS]:
